@@ -19,6 +19,7 @@ import (
 	"strconv"
 	"strings"
 	"sync"
+	"sync/atomic"
 	"time"
 
 	"verif/harness/internal/hx"
@@ -60,6 +61,7 @@ func serialProgram(backend string, badInit bool) string {
 		switch s {
 		case "recv":
 			sb.WriteString("  if (req.restarts == 0) { set req.http.X-Count = ratelimit.ratecounter_increment(rc, \"k\", 1); log req.http.X-Marker \":count:\" req.http.X-Count; }\n")
+			sb.WriteString("  log req.http.X-Marker \":body:\" req.body;\n")
 			sb.WriteString("  declare local var.s STRING; declare local var.i INTEGER;\n")
 			sb.WriteString("  if (req.http.X-Marker ~ \"^m([0-9]+)$\") { set var.s = re.group.1; }\n")
 			sb.WriteString("  set var.i = randomint(1, 10); set req.http.X-T = table.lookup(t, req.http.X-Marker, \"d\") var.s;\n")
@@ -281,6 +283,61 @@ func backendServer() (*httptest.Server, string) {
 	return server, fmt.Sprintf("backend example { .host = \"%s\"; .port = \"%s\"; .ssl = false; }\n", u.Hostname(), u.Port())
 }
 
+// every other request is a POST whose body names its marker; vcl_recv logs req.body
+func reqBody(req int) string {
+	if req%2 == 0 {
+		return ""
+	}
+	m := fmt.Sprintf("m%d", req)
+	return "B-" + m + "-" + strings.Repeat(m+".", 40)
+}
+
+func newRequest(req int, kind string) *http.Request {
+	var hr *http.Request
+	if b := reqBody(req); b != "" {
+		hr = httptest.NewRequest("POST", "http://localhost/a", strings.NewReader(b))
+	} else {
+		hr = httptest.NewRequest("GET", "http://localhost/a", nil)
+	}
+	hr.Header.Set("X-Marker", fmt.Sprintf("m%d", req))
+	hr.Header.Set("X-Kind", kind)
+	if kind == "F" {
+		// the handler refuses a request that already passed through this simulator (loop detection)
+		hr.Header.Set("Fastly-FF", "cache-localsimulator")
+	}
+	return hr
+}
+
+// quiet rounds: nothing in the harness synchronises the request goroutines with each other while they are inside
+// the handler (no shared debugger state, no event log, only an atomic stamp before and after ServeHTTP), so the
+// race detector sees falco's own synchronisation and nothing else.
+type quietDebugger struct{}
+
+func (quietDebugger) Run(ast.Node) interpreter.DebugState { return interpreter.DebugPass }
+func (quietDebugger) Message(string)                      {}
+func (quietDebugger) Log(*ast.LogStatement, string)       {}
+
+func launchQuiet(ip *interpreter.Interpreter, stamp *int64, req int, kind string, res *reqResult, wg *sync.WaitGroup) {
+	wg.Add(1)
+	go func() {
+		defer wg.Done()
+		res.start = int(atomic.AddInt64(stamp, 1))
+		defer func() {
+			if p := recover(); p != nil {
+				res.panicked = fmt.Sprint(p)
+			}
+			res.end = int(atomic.AddInt64(stamp, 1))
+			res.done = true
+		}()
+		w := httptest.NewRecorder()
+		ip.ServeHTTP(w, newRequest(req, kind))
+		res.code = w.Code
+		res.hdr = w.Header().Clone()
+		res.body = w.Body.String()
+		json.Unmarshal(w.Body.Bytes(), &res.rep) // nolint:errcheck
+	}()
+}
+
 // kind "X": a client that gives up (its request context is cancelled) a moment after it sent the request -
 // typically while the request waits for the handler.  Whatever happens to that request, every other one must
 // still be answered and the history must stay serialisable.
@@ -314,9 +371,7 @@ func launch(ip *interpreter.Interpreter, r *run, req int, kind string, res *reqR
 			r.mu.Unlock()
 		}()
 		w := &gateWriter{ResponseRecorder: httptest.NewRecorder(), r: r, req: req}
-		hr := httptest.NewRequest("GET", "http://localhost/a", nil)
-		hr.Header.Set("X-Marker", fmt.Sprintf("m%d", req))
-		hr.Header.Set("X-Kind", kind)
+		hr := newRequest(req, kind)
 		if kind == "X" {
 			ctx, cancel := gocontext.WithCancel(hr.Context())
 			hr = hr.WithContext(ctx)
@@ -324,10 +379,6 @@ func launch(ip *interpreter.Interpreter, r *run, req int, kind string, res *reqR
 				time.Sleep(time.Duration(50+req*37%400) * time.Microsecond)
 				cancel()
 			}()
-		}
-		if kind == "F" {
-			// the handler refuses a request that already passed through this simulator (loop detection)
-			hr.Header.Set("Fastly-FF", "cache-localsimulator")
 		}
 		ip.ServeHTTP(w, hr)
 		code = w.Code
@@ -379,6 +430,9 @@ func project(req int, kind string, rr *reqResult, evs []event, actual bool) (obs
 					break
 				}
 				v := strings.TrimPrefix(e.Val, marker+":")
+				if strings.HasPrefix(v, "body:") && strings.TrimPrefix(v, "body:") != reqBody(req) {
+					mm = append(mm, map[string]any{"obs": "foreign-body-in-request", "req": req, "got": strings.TrimPrefix(v, "body:")[:min(40, len(v)-5)]})
+				}
 				if !strings.Contains(v, ":") && v != "CORRUPT-HELPER" {
 					subs = append(subs, v)
 				}
@@ -405,6 +459,11 @@ func project(req int, kind string, rr *reqResult, evs []event, actual bool) (obs
 			}
 			if lg.Message == marker+":CORRUPT-HELPER" {
 				mm = append(mm, map[string]any{"obs": "value-of-other-request", "req": req})
+			}
+			if strings.HasPrefix(lg.Message, marker+":body:") {
+				if got := strings.TrimPrefix(lg.Message, marker+":body:"); got != reqBody(req) {
+					mm = append(mm, map[string]any{"obs": "foreign-body-in-request", "req": req, "got": got[:min(40, len(got))]})
+				}
 			}
 			if strings.HasPrefix(lg.Message, marker+":count:") {
 				if n, err := strconv.Atoi(strings.TrimPrefix(lg.Message, marker+":count:")); err == nil {
@@ -673,7 +732,7 @@ func cmdFree(args []string) int {
 		n := 2 + rng.Intn(*maxN-1)
 		id := fmt.Sprintf("%s%d", *prefix, round)
 		// three kinds of rounds: process report (JSON), the real response, and a program that ProcessInit rejects
-		mode := []string{"report", "actual", "report", "badinit"}[round%4]
+		mode := []string{"report", "actual", "quiet", "badinit", "quiet", "report"}[round%6]
 		opts := []context.Option{context.WithResolver(resolver.NewStaticResolver("main", vcl))}
 		if mode == "actual" {
 			opts = append(opts, context.WithActualResponse(true))
@@ -685,6 +744,50 @@ func cmdFree(args []string) int {
 			}
 		}
 		ip := interpreter.New(opts...)
+		if mode == "quiet" {
+			if n > 8 {
+				n = 8 // wide linearisation windows: keep the search small
+			}
+			ip.Debugger = quietDebugger{}
+			var stamp int64
+			var wgq sync.WaitGroup
+			resq := make([]*reqResult, n+1)
+			ksq := make([]string, n)
+			for i := 1; i <= n; i++ {
+				resq[i] = &reqResult{}
+				ksq[i-1] = kinds[rng.Intn(len(kinds)-1)] // no cancelled clients here (their helper goroutine synchronises)
+				launchQuiet(ip, &stamp, i, ksq[i-1], resq[i], &wgq)
+			}
+			dq := make(chan struct{})
+			go func() { wgq.Wait(); close(dq) }()
+			res := hx.CaseResult{ID: id, Input: map[string]any{"n": n, "kinds": ksq, "gomaxprocs": runtime.GOMAXPROCS(0), "mode": mode},
+				Class: map[string]any{"mode": "free-quiet"}}
+			if !waitCh(dq, 30*time.Second) {
+				res.Mismatch = append(res.Mismatch, map[string]any{"obs": "hang", "detail": "requests did not finish"})
+				out.Write(res)
+				continue
+			}
+			tr := obsTrace{ID: id, Concurrent: true}
+			for i := 1; i <= n; i++ {
+				o, mm := project(i, ksq[i-1], resq[i], nil, false)
+				res.Mismatch = append(res.Mismatch, mm...)
+				if ksq[i-1] != "F" {
+					tr.Reqs = append(tr.Reqs, o)
+				}
+			}
+			res.Observed = tr
+			res.Key = fmt.Sprint(mode, ksq, runtime.GOMAXPROCS(0), round)
+			if len(tr.Reqs) > 0 {
+				res.Validated = true
+				bt, _ := json.Marshal(tr)
+				tf.Write(append(bt, '\n')) // nolint:errcheck
+				// no lock events in a quiet round: an empty event list is trivially a behaviour of the locked handler
+				be, _ := json.Marshal(map[string]any{"id": id, "n": n, "events": []event{}})
+				ef.Write(append(be, '\n')) // nolint:errcheck
+			}
+			out.Write(res)
+			continue
+		}
 		r := newRun(n+1, false, rng.Int63())
 		ip.Debugger = gateDebugger{r}
 		ks := make([]string, n)
